@@ -633,3 +633,22 @@ MANIFEST_TEXT["C09"] = {
 # every property without a registered check is listed here with the reason (kept current as checks are added)
 NOT_APPLICABLE = [{"property_id": pid, "reason": "check not built yet (planned in DESIGN.md); nothing is claimed for it"}
                   for pid in ALL_IDS if pid not in PLAN]
+
+# ---------------------------------------------------------------------------------------------------------------
+# clauses and generators added while strengthening the checks against seeded changes (DESIGN.md section 9 and 12)
+RULE_ADDENDA = {
+    "C01": "TestNearValidDefinitions runs the same predicate over valid worlds in which 1-2 structural references were bent (category -> foreign exit, exit -> foreign node, case -> foreign category, duplicated node, dropped exit): definitions the loader rejects end in a Go error (outside the premise, counted), whatever it accepts must satisfy the predicate.",
+    "C03": "A third application of each modifier, on the contact after it was marshalled and re-read, must be a no-op as well.",
+    "C04": "Engine level (TestEngineTemplates): webhook-heavy scenarios with mock bodies null/scalars/{}/[] and reloads whose templates read @webhook, @legacy_extra, @child, @parent, @input, @resume, @run: no engine call may panic.",
+    "C06": "Effectiveness of a modifier is decided from the contact before/after, not from the returned flag; single-condition URN queries are additionally judged by a model of the documented any/all semantics.",
+    "C08": "Process history: every scenario of the recorded digest list is executed again alone, first thing in a fresh process that generates nothing, and its digest must equal the one from the generating process.",
+    "C10": "Faults also remove the node the parent run is paused on or strip its router. Small MaxResumesPerSession values are drawn: once the session has waited that often any resume must end it as failed.",
+    "C12": "TemplateValue of every template must agree with Template of the trimmed text.",
+    "C15": "A query parsed under an environment differing only in timezone must give the same verdict; number/date fields may hold untyped text (absent for queries).",
+    "C17": "TestContextReferences: 19 legacy context references migrated under both RawDates options and in three template forms must evaluate like the documented new-syntax equivalent.",
+    "C18": "Cases may start under other settings and be resumed (live or reloaded) with refreshed environment/contact, and may send to all URNs with a channel template (only non-templated messages are judged).",
+    "C19": "Histories in which the policy is switched on by a resume (identical contacts before, differing URNs after) are compared from the switch on; a quarter of the contacts have no id.",
+    "C20": "References in the translations a run actually used (session language stable and not the base language) must be dependencies too.",
+}
+for _pid, _text in RULE_ADDENDA.items():
+    PLAN[_pid]["rule"] += " " + _text
